@@ -93,7 +93,9 @@ func zzNodeName(_ *transformctx.Ctx, n *idr.Node, suffix string) (string, error)
 	return n.Data + suffix, nil
 }
 
-var zzFuncs = customfuncs.CustomFuncs{"cat": zzCat, "var": zzVar, "nodename": zzNodeName}
+func zzOnlyCtx(_ *transformctx.Ctx) (string, error) { return "ctx-only", nil }
+
+var zzFuncs = customfuncs.CustomFuncs{"cat": zzCat, "var": zzVar, "nodename": zzNodeName, "onlyctx": zzOnlyCtx}
 
 // zzValidate runs the real schema validation over hand-built declarations.
 func zzValidate(decls map[string]*Decl) *Decl {
